@@ -26,7 +26,10 @@ fn is_acgt(b: u8) -> bool {
 pub fn check_bytes(bytes: &[u8], with_scalar_hook: bool) -> Result<(), String> {
     let exp: S = bytes.iter().map(|b| table(*b)).collect();
     let show = |bs: &[u8]| -> String { bs.iter().map(|b| if b.is_ascii_graphic() { (*b as char).to_string() } else { format!("\\x{:02x}", b) }).collect() };
-    let x = DnaString::from_acgt_bytes(bytes);
+    // exact-size heap allocation: a kernel that loads past the end of the caller's slice leaves the
+    // allocation (visible to Miri / ASan / memcheck even when the decoded values are right)
+    let exact: Box<[u8]> = bytes.to_vec().into_boxed_slice();
+    let x = DnaString::from_acgt_bytes(&exact);
     ensure!(x.len() == bytes.len(), "from_acgt_bytes: len {} for {} input bytes", x.len(), bytes.len());
     let got = x.to_bytes();
     if got != exp {
@@ -56,7 +59,7 @@ pub fn check_bytes(bytes: &[u8], with_scalar_hook: bool) -> Result<(), String> {
     ensure!(x.to_string().as_bytes() == &up[..], "to_string is not the upper-cased input with non-ACGT replaced by A");
     if with_scalar_hook {
         verif_hooks::set_force_scalar(true);
-        let z = DnaString::from_acgt_bytes(bytes);
+        let z = DnaString::from_acgt_bytes(&exact);
         verif_hooks::set_force_scalar(false);
         ensure!(z == x, "vector path and scalar path of from_acgt_bytes disagree (len {})", bytes.len());
     }
@@ -221,7 +224,8 @@ fn c16_exhaustive_light(c: &mut Case) -> Result<(), String> {
     let tail = (c.idx % 7) as usize;
     let mut bytes = block.to_vec();
     bytes.extend_from_slice(&block[..tail]);
-    let x = DnaString::from_acgt_bytes(&bytes);
+    let exact: Box<[u8]> = bytes.clone().into_boxed_slice();
+    let x = DnaString::from_acgt_bytes(&exact);
     let exp: S = bytes.iter().map(|b| table(*b)).collect();
     ensure!(x.to_bytes() == exp, "from_acgt_bytes differs from the byte table on block base value {:#04x}", v0);
     ensure!(x == DnaString::from_bytes(&exp), "from_acgt_bytes value != from_bytes");
